@@ -325,7 +325,8 @@ def build_evidence(P, prop_id, tier, seed, agg, outcomes, cross, known_seen, rep
         "simulated_time": {"steps": agg["steps"], "operations_handled": agg["ops"]},
         "runs_per_hour": int(agg["runs"] / max(wall_used, 1e-9) * 3600),
         "seeds": {"VERIF_SEED": seed, "cases": f"0..{len(outcomes) - 1}",
-                  "hash_seeds": list(farm.hashseeds)},
+                  "hash_seeds": list(farm.hashseeds),
+                  "hash_seeds_run_with_python_O": [h for h in farm.hashseeds if h in farm_mod.OPTIMIZED_SEEDS]},
         "faults_fired": dict(agg["fired"]),
         "fault_sites_reached": dict(agg["sites"]),
         "faults_armed": agg["armed"],
